@@ -62,6 +62,7 @@ type SCTPTransport struct {
 	onCloseHandler func(error)
 
 	sctpAssociation            *sctp.Association
+	acceptLoopDone             chan struct{}
 	onDataChannelHandler       func(*DataChannel)
 	onDataChannelOpenedHandler func(*DataChannel)
 
@@ -171,9 +172,29 @@ func (r *SCTPTransport) Start(capabilities SCTPCapabilities) error {
 	r.dataChannelsOpened += openedDCCount
 	r.lock.Unlock()
 
-	go r.acceptDataChannels(sctpAssociation, dataChannels)
+	acceptLoopDone := make(chan struct{})
+	r.lock.Lock()
+	r.acceptLoopDone = acceptLoopDone
+	r.lock.Unlock()
+
+	go func() {
+		defer close(acceptLoopDone)
+		r.acceptDataChannels(sctpAssociation, dataChannels)
+	}()
 
 	return nil
+}
+
+// waitForAcceptLoop blocks until the goroutine accepting data channels, if
+// one was started, has returned. It returns once the association was stopped.
+func (r *SCTPTransport) waitForAcceptLoop() {
+	r.lock.RLock()
+	acceptLoopDone := r.acceptLoopDone
+	r.lock.RUnlock()
+
+	if acceptLoopDone != nil {
+		<-acceptLoopDone
+	}
 }
 
 func (r *SCTPTransport) sctpClientOptions(netConn net.Conn, maxMessageSize uint32) []sctp.ClientOption {
